@@ -76,7 +76,9 @@ WS0 == [ rpc |-> 0, news |-> 0, rev |-> -1, win |-> 0, method |-> "", mshape |->
          cliEnd |-> "",
          \* status codes that stream-level protocol violations delivered so far justify (raw peers);
          \* immediate: the endpoint must fail the stream on delivery, without any application call
-         sViol |-> {}, sViolNow |-> FALSE, cViol |-> {}, cViolNow |-> FALSE ]
+         sViol |-> {}, sViolNow |-> FALSE, cViol |-> {}, cViolNow |-> FALSE,
+         \* the close frame was taken off the carrier but the receive loop is held before handing it to the stream
+         closeHeld |-> FALSE ]
 
 RP0 == [ shape |-> "", sid |-> 0, cstart |-> FALSE, started |-> FALSE, startFail |-> FALSE,
          t0 |-> 0, timeout |-> 0, method |-> "", mdSent |-> MD0, opts |-> <<>>,
@@ -639,6 +641,20 @@ OSkip ==
   /\ QOff
   /\ UNCHANGED <<cfg, ws, rp, tun, bad, now, meta>>
 
+\* The harness can hold the tunnel client's receive loop between taking a frame off the carrier and handing it
+\* to its stream (yield point cli.frame.dispatch).  A close frame held there has not ended the RPC yet: whatever
+\* ends it meanwhile (a cancel) comes first.
+OPark(e) ==
+  /\ ws' = IF e.point = "cli.frame.dispatch" /\ e.sid \in DOMAIN ws /\ ws[e.sid].closeDeliv /\ ws[e.sid].cliEnd = "close"
+            THEN [ ws EXCEPT ![e.sid].cliEnd = "", ![e.sid].closeHeld = TRUE ] ELSE ws
+  /\ QOff
+  /\ UNCHANGED <<cfg, rp, tun, bad, now, meta>>
+OUnpark(e) ==
+  /\ ws' = IF e.point = "cli.frame.dispatch" /\ e.sid \in DOMAIN ws /\ ws[e.sid].closeHeld
+            THEN [ ws EXCEPT ![e.sid].cliEnd = CliEnd(ws[e.sid], "close"), ![e.sid].closeHeld = FALSE ] ELSE ws
+  /\ QOff
+  /\ UNCHANGED <<cfg, rp, tun, bad, now, meta>>
+
 OHeap(e) ==
   /\ tun' = [ tun EXCEPT !.heapBase = IF @ = -1 THEN e.mb ELSE @, !.heapMax = IF e.mb > @ THEN e.mb ELSE @ ]
   /\ QOff
@@ -685,6 +701,8 @@ OEvent(e) ==
     [] e.ev = "reg"       -> OReg(e)
     [] e.ev = "hook" /\ e.point = "cli.close.marked" -> OCloseMarked
     [] e.ev = "heap"      -> OHeap(e)
+    [] e.ev = "park"      -> OPark(e)
+    [] e.ev = "unpark"    -> OUnpark(e)
     [] OTHER              -> OSkip
 
 ---------------------------------------------------------------------------
